@@ -45,3 +45,44 @@ Theorem C08_interactive_serves_incomplete_refuted :
             accepted_interactive e = true /\ match f_out e with Some f => complete f = false | None => False end.
 Proof. exact interactive_writer_refuted. Qed.
 Print Assumptions C08_interactive_serves_incomplete_refuted.
+
+(* ---- the interactive cache at point level (Model/CacheExec.v: the cache steps of a worker thread
+   laid over Model/Exec.v; tied to the code by full lockstep incl. hits, identical calls in flight,
+   sessions and killed workers).  Proofs/CacheSafe.v.  Every program (cancellations and failing
+   calls included), worker count, schedule, kill of a worker thread and initial directory of
+   result files with prefixes of [function; input_args; input_kwargs; output]. ---- *)
+From EL Require Model.Exec Model.FileExec Model.FileSpec Model.CacheExec Model.CacheSpec Proofs.CacheSafe.
+
+(* a future is completed with its own call's value — computed or taken from the cache entry of an
+   identical call — or with None *)
+Theorem C08_served_value_is_the_calls_own :
+  forall c n prog fs0 s t s' i v,
+    (forall k, CacheExec.ccanon c (CacheExec.ccanon c k) = CacheExec.ccanon c k) ->
+    CacheSafe.creach c (CacheExec.cinit n prog fs0) s ->
+    CacheExec.cstep c s t = Some (s', FileExec.FL (Exec.LSetRes i v)) ->
+    v = 0 \/ CacheExec.ccanon c v = CacheExec.ccanon c i.
+Proof. exact CacheSafe.served_value. Qed.
+Print Assumptions C08_served_value_is_the_calls_own.
+
+(* None is served only from an entry that has no output dataset *)
+Theorem C08_none_only_from_incomplete_entry :
+  forall c s s' j i l,
+    CacheExec.getov s j = CacheExec.CHitOpen i -> CacheExec.cw_step c s j = Some (s', l) ->
+    CacheExec.getov s' j = CacheExec.CHitClose false i ->
+    exists dsl, FileExec.fs_get (CacheExec.cfs s) (CacheExec.cpath c i) = Some dsl /\ FileExec.has_ds FileExec.DOut dsl = false.
+Proof. exact CacheSafe.none_only_from_incomplete. Qed.
+Print Assumptions C08_none_only_from_incomplete_entry.
+
+(* REFUTED on the code as it is (finding D10): "a hit serves the call's value".  Two workers, two
+   identical calls, no kill, no failing call: while worker 1 is inside its dump of call 1 the entry
+   exists under its final name without output; worker 2 looks call 2 up, hits, and completes its
+   future with None *)
+Theorem C08_refuted_hit_serves_incomplete_entry :
+  CacheExec.ccanon CacheSafe.d10_cfg 2 = CacheExec.ccanon CacheSafe.d10_cfg 1 /\
+  CacheSafe.creach CacheSafe.d10_cfg (CacheExec.cinit 2 CacheSafe.d10_prog []) CacheSafe.d10_state /\
+  exists s', CacheExec.cstep CacheSafe.d10_cfg CacheSafe.d10_state (Exec.TW 2) = Some (s', FileExec.FL (Exec.LSetRes 2 0))
+             /\ Exec.getf (CacheExec.cb s') 2 = Exec.FRes 0.
+Proof.
+  destruct CacheSafe.incomplete_entry_served as [H1 [_ [H3 [_ [_ [_ H7]]]]]]. exact (conj H1 (conj H3 H7)).
+Qed.
+Print Assumptions C08_refuted_hit_serves_incomplete_entry.
